@@ -706,15 +706,17 @@ func (idx *indexer) indexSince(txID uint64) error {
 						txmd = prevTxHdr.Metadata.Bytes()
 					}
 
-					var kvmd *KVMetadata
+					// prevEntry.Metadata() is read-only: the tombstone carries a writable copy of it, marked as deleted
+					kvmd := NewKVMetadata()
 
 					if prevEntry.Metadata() != nil {
-						kvmd = prevEntry.Metadata()
-					} else {
-						kvmd = NewKVMetadata()
+						err = kvmd.unsafeReadFrom(prevEntry.Metadata().Bytes())
+						if err != nil {
+							return err
+						}
 					}
 
-					kvmd.AsDeleted(true)
+					err = kvmd.AsDeleted(true)
 					if err != nil {
 						return err
 					}
